@@ -1,11 +1,15 @@
 use crate::engine::{PropertyDef, Tier};
 pub mod c01;
+pub mod c02;
 pub mod c09;
+pub mod c18;
 
 pub fn get(id: &str, tier: Tier) -> Option<PropertyDef> {
     match id {
         "C01" => Some(c01::def(tier)),
         "C09" => Some(c09::def(tier)),
+        "C18" => Some(c18::def(tier)),
+        "C02" => Some(c02::def(tier)),
         _ => None,
     }
 }
